@@ -10,6 +10,8 @@ pub struct VerifIo {
     datagram: bool,
     /// socket address the bytes returned by the last `read` came from (datagram sources), if the harness named one
     last_from: Option<std::net::SocketAddr>,
+    /// destination socket address of every `write`, in order (None = no address given)
+    write_to: std::sync::Arc<std::sync::Mutex<Vec<Option<std::net::SocketAddr>>>>,
 }
 
 /// what the harness queues for one `read`: the octets and, optionally, the socket address they come from
@@ -22,11 +24,15 @@ pub struct Chunk {
 pub struct VerifPeer {
     pub to_lib: Option<UnboundedSender<Chunk>>,
     pub from_lib: UnboundedReceiver<(Option<tokio::time::Instant>, Vec<u8>)>,
+    /// destination socket address of every write of the library, in the order of `from_lib`
+    pub write_to: std::sync::Arc<std::sync::Mutex<Vec<Option<std::net::SocketAddr>>>>,
 }
 
 pub fn pipe(datagram: bool) -> (VerifIo, VerifPeer) {
     let (to_lib, rx) = unbounded_channel();
     let (tx, from_lib) = unbounded_channel();
+    let write_to: std::sync::Arc<std::sync::Mutex<Vec<Option<std::net::SocketAddr>>>> =
+        Default::default();
     (
         VerifIo {
             rx,
@@ -34,10 +40,12 @@ pub fn pipe(datagram: bool) -> (VerifIo, VerifPeer) {
             pending: VecDeque::new(),
             datagram,
             last_from: None,
+            write_to: write_to.clone(),
         },
         VerifPeer {
             to_lib: Some(to_lib),
             from_lib,
+            write_to,
         },
     )
 }
@@ -80,6 +88,19 @@ impl VerifIo {
             Some(a) => crate::util::phys::PhysAddr::Udp(a),
             None => crate::util::phys::PhysAddr::None,
         }
+    }
+
+    /// `write` with the physical destination address the library chose
+    pub async fn write_all_to(
+        &mut self,
+        data: &[u8],
+        addr: crate::util::phys::PhysAddr,
+    ) -> std::io::Result<()> {
+        self.write_to.lock().unwrap().push(match addr {
+            crate::util::phys::PhysAddr::Udp(a) => Some(a),
+            crate::util::phys::PhysAddr::None => None,
+        });
+        self.write_all(data).await
     }
 
     pub async fn write_all(&mut self, data: &[u8]) -> std::io::Result<()> {
